@@ -73,6 +73,7 @@ type Term struct {
 	sort Sort
 	// quantifier
 	bound []*Term // bound variables (const terms) for forall/exists
+	patN  int     // for "!": number of trailing args that only carry the pattern terms (not printed)
 	str   string  // cached rendering
 }
 
@@ -517,6 +518,36 @@ func Forall(bound []*Term, body *Term) *Term {
 	return &Term{op: "forall", bound: bound, args: []*Term{body}, sort: SBool}
 }
 
+// ForallPat is Forall with an explicit instantiation pattern (multi-pattern of the given terms).
+func ForallPat(bound []*Term, body *Term, pats []*Term) *Term {
+	if len(pats) == 0 {
+		return Forall(bound, body)
+	}
+	if body.IsTrue() || len(bound) == 0 {
+		return body
+	}
+	if body.op == "and" {
+		parts := make([]*Term, len(body.args))
+		for i, a := range body.args {
+			parts[i] = ForallPat(bound, a, pats)
+		}
+		return And(parts...)
+	}
+	if body.op == "=>" && body.args[1].op == "and" {
+		parts := make([]*Term, len(body.args[1].args))
+		for i, a := range body.args[1].args {
+			parts[i] = ForallPat(bound, Implies(body.args[0], a), pats)
+		}
+		return And(parts...)
+	}
+	var ps []string
+	for _, p := range pats {
+		ps = append(ps, p.String())
+	}
+	wrapped := &Term{op: "!", args: append([]*Term{body, {op: ":pattern", sort: SBool}, {op: "(" + strings.Join(ps, " ") + ")", sort: SBool}}, pats...), sort: SBool, patN: len(pats)}
+	return &Term{op: "forall", bound: bound, args: []*Term{wrapped}, sort: SBool}
+}
+
 func hasQuantifier(t *Term) bool {
 	if t.op == "forall" || t.op == "exists" {
 		return true
@@ -585,7 +616,7 @@ func (t *Term) String() string {
 		} else {
 			var b strings.Builder
 			b.WriteString("(" + t.op)
-			for _, a := range t.args {
+			for _, a := range t.args[:len(t.args)-t.patN] {
 				b.WriteByte(' ')
 				b.WriteString(a.String())
 			}
